@@ -134,9 +134,43 @@ pub fn validate(seed: u64, workloads: usize, quiet: bool) -> (u64, u64) {
     (validated, bad)
 }
 
+/// Observation on REAL rayon (no assertion, the count depends on the machine): how often does a
+/// pool thread that is blocked inside the nested parallel call of one outer item start ANOTHER
+/// outer item on top of its stack? This is the behaviour the model's `steal` knob reproduces
+/// (re-entrancy into thread-local state, "lock held across a parallel call" deadlocks).
+pub fn observe_reentrancy_on_real_rayon() -> (u64, u64) {
+    use real_rayon::prelude::*;
+    use std::cell::Cell;
+    use std::sync::atomic::{AtomicU64, Ordering};
+    thread_local! {
+        static DEPTH: Cell<u32> = const { Cell::new(0) };
+    }
+    let reentered = AtomicU64::new(0);
+    let total = AtomicU64::new(0);
+    let pool = real_rayon::ThreadPoolBuilder::new().num_threads(4).build().expect("pool");
+    pool.install(|| {
+        for _ in 0..50 {
+            (0..64u32).into_par_iter().for_each(|_| {
+                total.fetch_add(1, Ordering::Relaxed);
+                let d = DEPTH.with(|c| c.get());
+                if d > 0 {
+                    reentered.fetch_add(1, Ordering::Relaxed);
+                }
+                DEPTH.with(|c| c.set(d + 1));
+                let s: u64 = (0..16u64).into_par_iter().map(|x| (0..2000u64).fold(x, |a, b| a.wrapping_mul(31).wrapping_add(b)) & 0xffff).sum();
+                std::hint::black_box(s);
+                DEPTH.with(|c| c.set(d));
+            });
+        }
+    });
+    (reentered.load(Ordering::Relaxed), total.load(Ordering::Relaxed))
+}
+
 pub fn run(seed: u64) -> i32 {
     let (v, bad) = validate(seed, 150, false);
     report::say(&format!("validate-rayon: {v} outcomes of real rayon (pools 1/2/16) checked against the model's outcome sets, {bad} mismatches"));
+    let (re, total) = observe_reentrancy_on_real_rayon();
+    report::say(&format!("validate-rayon: on real rayon (4 threads) {re} of {total} outer items started on a thread that was blocked inside another outer item's nested parallel call (observation only; the model's work-stealing-while-blocked knob reproduces this)"));
     if bad > 0 {
         2
     } else {
